@@ -155,6 +155,10 @@ func (s *SFlow) run() {
 		atomic.AddUint64(&s.stats.UDPCount, 1)
 		sFlowUDPCh <- SFUDPMsg{raddr, b[:n]}
 	}
+
+	// the read loop is the only sender on the UDP channel: it closes the channel
+	// itself once it has left the loop (a close from shutdown could hit a send in flight)
+	close(sFlowUDPCh)
 }
 
 func (s *SFlow) shutdown() {
@@ -169,7 +173,6 @@ func (s *SFlow) shutdown() {
 	time.Sleep(1 * time.Second)
 	s.conn.Close()
 	logger.Println("sFlow has been shutdown")
-	close(sFlowUDPCh)
 }
 
 func (s *SFlow) sFlowWorker(wQuit chan struct{}) {
